@@ -1,34 +1,43 @@
 /-
-C04 proofs — P1 (`Reach.listed`) is preserved by every access of the repaired protocol.
+C04 proofs — P1 (`Reach.listed`) is preserved by every access of the repaired protocol: the step-specific facts.
 -/
 import TbbVerif.Proofs.C04.ReachH
 
 namespace TbbVerif.C04
-variable {reg : List Nat} {s : St} {t : Nat}
+variable {r : List RF} {reg : List Nat} {s : St} {t : Nat}
 
-/-- F2b: what "a source has passed list L" after a step means before the step: it had passed already, or the step is the
-hint-skip of that source (its hint is clear), or the step is the epoch sync of L by the current propagation. -/
-theorem passed_step_back (hR : Reach reg s) {L a : Nat}
-    (h : PassedUpTo (exec C reg s t).skip (exec C reg s t).srcOf ((exec C reg s t).epoch L) a) :
-    PassedUpTo s.skip s.srcOf (s.epoch L) a ∨ s.mhc a = false ∨
-      (∃ i, (s.pc t).syncing = some i ∧ reg[i]? = some L ∧ PassedUpTo s.skip s.srcOf s.G a) := by
+/-- F2b: what "the cancellation (a, m) has passed list L" after a step means before the step: it had passed already, or
+the step is the hint-skip of `a` (its hint is clear), or the step is the epoch sync of L by the current propagation, or the
+step is the registration of thread L (whose list is empty). -/
+theorem passed_step_back (hR : Reach reg s) {L a m : Nat}
+    (h : Passed (exec (C r) reg s t).skipSt (exec (C r) reg s t).srcOf (exec (C r) reg s t).pst
+      ((exec (C r) reg s t).eff L) a m) :
+    Passed s.skipSt s.srcOf s.pst (s.eff L) a m ∨ s.mhc a = false ∨
+      (∃ i, (s.pc t).syncing = some i ∧ reg[i]? = some L ∧ Passed s.skipSt s.srcOf s.pst s.G a m) ∨
+      (L = t ∧ s.pc t = .gLock) := by
   have g0 := hR.epochLe L
   have g1 := hR.syncG t
+  have g2 := hR.joinedLe L
   revert h
   exec_cases_C
   all_goals (try rw [‹s.pc t = _›] at g1)
   all_goals (try simp at g1)
-  all_goals (intro h; try simp [upd_apply, Pc.syncing] at h ⊢)
-  all_goals grind [→ passed_below_bump, passed_upd_skip]
+  all_goals (intro h; try simp [upd_apply, Pc.syncing, St.eff] at h ⊢)
+  all_goals grind [→ passed_below_bump, → passed_upd_skip_back, St.eff]
+
+/-- what a binder that re-reads its parent's flag learns about everything that has passed -/
+def Learnt (s : St) (x : Nat) : Prop :=
+  ∀ a m, Passed s.skipSt s.srcOf s.pst s.G a m → Cur s.wst s.rst a m → Anc s.par x a → Vf s.par s.can s.rst s.oc m a x
 
 /-- F5: the stepping binder's pending re-copy stays pending, or it has just stored "cancelled", or it has just read
 "not cancelled" from a parent whose flag was final for everything that had passed. -/
 theorem cover_self (hS : Struct reg s) (hR : Reach reg s) {x : Nat} (h : (s.pc t).coverOf s.G = some x) :
-    ((exec C reg s t).pc t).coverOf (exec C reg s t).G = some x ∨ (exec C reg s t).can x = true ∨
-      (∀ a, PassedUpTo s.skip s.srcOf s.G a → ¬ Anc s.par x a) := by
+    ((exec (C r) reg s t).pc t).coverOf (exec (C r) reg s t).G = some x ∨ (exec (C r) reg s t).can x = true ∨
+      Learnt s x := by
   have g0 := hR.copyTrue t
   have l0 := @fb_establish reg s hS hR t
   have l1 := @root_establish reg s hS hR t
+  unfold Learnt
   revert h
   exec_cases_C
   all_goals (try rw [‹s.pc t = _›] at g0)
@@ -44,10 +53,11 @@ theorem pushing_eq {pc : Pc} {x : Nat} (h : pc.pushing = some x) : ∃ p sn, pc 
 /-- F6: right after push_front the new context is covered, or the speculative copy already accounts for every
 propagation that has passed the binder's own list -/
 theorem push_covered (hR : Reach reg s) {x : Nat} (hp : (s.pc t).pushing = some x) (hf : s.lmx t = none) :
-    ((exec C reg s t).pc t).coverOf (exec C reg s t).G = some x ∨
-      (∀ a, PassedUpTo s.skip s.srcOf (s.epoch t) a → Anc s.par x a → s.can x = true) := by
+    ((exec (C r) reg s t).pc t).coverOf (exec (C r) reg s t).G = some x ∨
+      (∀ a m, Passed s.skipSt s.srcOf s.pst (s.eff t) a m → Cur s.wst s.rst a m → Anc s.par x a →
+        Vf s.par s.can s.rst s.oc m a x) := by
   obtain ⟨p, sn, hpc⟩ := pushing_eq hp
-  have hpc' : ((exec C reg s t).pc t) = .bRegU x p sn ∧ (exec C reg s t).G = s.G := by
+  have hpc' : ((exec (C r) reg s t).pc t) = .bRegU x p sn ∧ (exec (C r) reg s t).G = s.G := by
     unfold exec execBind
     simp [hpc, Pc.isCancel, Pc.isBind, hf]
   rw [hpc'.1, hpc'.2]
@@ -56,8 +66,10 @@ theorem push_covered (hR : Reach reg s) {x : Nat} (hp : (s.pc t).pushing = some 
   | some n =>
     by_cases hn : n < s.G
     · exact Or.inl (by simp [Pc.coverOf, hn])
-    · refine Or.inr (fun a hpa ha => hR.spec t x n a (by rw [hpc]; rfl) (passed_mono ?_ hpa) ha)
-      have := hR.epochLe t
-      omega
+    · refine Or.inr (fun a m hpa hc ha => hR.spec t x n a m (by rw [hpc]; rfl) (passed_mono ?_ hpa) hc ha)
+      have h1 := hR.epochLe t
+      have h2 := hR.joinedLe t
+      unfold St.eff
+      split <;> omega
 
 end TbbVerif.C04
